@@ -63,6 +63,7 @@ func genC05Work(t *rapid.T) clCase {
 		case "clean":
 			op := genCleanOp(t, rapid.Bool().Draw(t, "compact"), rapid.IntRange(0, 2).Draw(t, "ret") != 0)
 			op.Msgs = nil
+			op.Fault = 0 // crashes are the fault here: no failing deletions on top (C09 has those)
 			c.Ops = append(c.Ops, op)
 		case "sethw":
 			c.Ops = append(c.Ops, clOp{Op: "sethw", Sel: rapid.IntRange(0, 1000).Draw(t, "sel")})
@@ -740,4 +741,102 @@ func TestVerifC05Enum(t *testing.T) {
 			}
 			return nil
 		}})
+}
+
+// ---- crash units of C08 and C09 ------------------------------------------
+//
+// The same child-process machinery, with workloads that end in the clean the
+// property is about and with the kill restricted to the crash points inside
+// that clean: every hit of every such point is tried. What C08/C09 promise
+// about a clean must also hold for the log a restart finds when the process
+// died inside it: compaction - every message that had to survive is there,
+// unchanged, at its offset (the journal's Must set); retention - what is left
+// is a contiguous suffix.
+
+func genCrashWork(t *rapid.T, compact bool) c05EnumCase {
+	c := clCase{Flavor: "C05", MaxSeg: rapid.SampledFrom([]int64{1, 150, 150, 300}).Draw(t, "maxseg")}
+	na := rapid.IntRange(4, 14).Draw(t, "nappend")
+	for i := 0; i < na; i++ {
+		b := genBatch(t, true, 3)
+		for j := range b {
+			if b[j].V > 100 {
+				b[j].V = 30
+			}
+			if compact && b[j].K > 3 {
+				b[j].K = 1 + b[j].K%3 // few keys: most messages are superseded
+			}
+		}
+		c.Ops = append(c.Ops, clOp{Op: "append", Msgs: b})
+		if rapid.IntRange(0, 7).Draw(t, "reopen") == 0 {
+			c.Ops = append(c.Ops, clOp{Op: "reopen"})
+		}
+	}
+	c.Ops = append(c.Ops, clOp{Op: "sethw", Sel: rapid.SampledFrom([]int{999, 999, 0, 3, 500}).Draw(t, "hw")})
+	if rapid.Bool().Draw(t, "hw2") {
+		c.Ops = append(c.Ops, clOp{Op: "sethw", Sel: 999})
+	}
+	op := genCleanOp(t, compact, !compact || rapid.IntRange(0, 3).Draw(t, "withret") == 0)
+	op.Msgs, op.Fault = nil, 0
+	c.Ops = append(c.Ops, op)
+	if rapid.Bool().Draw(t, "again") {
+		op2 := genCleanOp(t, compact, !compact)
+		op2.Msgs, op2.Fault = nil, 0
+		c.Ops = append(c.Ops, clOp{Op: "append", Msgs: genBatch(t, true, 2)}, op2)
+	}
+	e := c05EnumCase{Work: c}
+	e.Tail = append(e.Tail, clOp{Op: "reopen"}, clOp{Op: "clean", Compact: compact}, clOp{Op: "append", Msgs: []clMsgSpec{{K: 1, V: 20, H: -1}}})
+	return e
+}
+
+func runCrashUnit(prefix string, points []string) func(c c05EnumCase, o *vfutil.Obs) *vfutil.Failure {
+	return func(c c05EnumCase, o *vfutil.Obs) *vfutil.Failure {
+		root := vfutil.TempDir("c05x")
+		defer os.RemoveAll(root)
+		hits, f := c05CountHits(root, c.Work)
+		if f != nil {
+			return f
+		}
+		tried := 0
+		for _, h := range hits {
+			in := false
+			for _, p := range points {
+				if strings.HasPrefix(h.Name, p) {
+					in = true
+				}
+			}
+			if !in {
+				continue
+			}
+			tried++
+			if f := c05Judge(root, c.Work, h, c.Tail, o); f != nil {
+				if strings.HasPrefix(f.Signature, "C05/") {
+					f.Signature = prefix + strings.TrimPrefix(f.Signature, "C05/")
+				}
+				return f
+			}
+		}
+		o.Count("crashes", tried)
+		if tried > 0 {
+			o.NonTrivial()
+		}
+		return nil
+	}
+}
+
+func TestVerifC08Crash(t *testing.T) {
+	if os.Getenv("VERIF_CHILD_CASE") != "" {
+		t.Skip("child process")
+	}
+	vfutil.Run(t, vfutil.Spec[c05EnumCase]{ID: "C08",
+		Gen: func(t *rapid.T) c05EnumCase { return genCrashWork(t, true) },
+		Run: runCrashUnit("C08/crash-inside-compaction/", []string{"compact.", "replace.", "clean.", "segment-delete.", "retention."})})
+}
+
+func TestVerifC09Crash(t *testing.T) {
+	if os.Getenv("VERIF_CHILD_CASE") != "" {
+		t.Skip("child process")
+	}
+	vfutil.Run(t, vfutil.Spec[c05EnumCase]{ID: "C09",
+		Gen: func(t *rapid.T) c05EnumCase { return genCrashWork(t, false) },
+		Run: runCrashUnit("C09/crash-inside-retention/", []string{"retention.", "segment-delete.", "clean."})})
 }
